@@ -316,6 +316,38 @@ def explore_sp_special(case):
     if not ca.is_equal(table["x"], x_first) or len(table) != 2 or ca.symvar(ca.SX(e2))[0].name() != "x" or len(ca.symvar(ca.SX(e2))) != 1 \
             or not ca.is_equal(ca.symvar(ca.SX(e2))[0], x_first):
         res.fail(site="sympy_to_casadi", clause="symbol_table_consistent", cls="shared_table", detail=dict(table=list(table)), sub="special", case=case)
+    # a caller-owned (initially empty) table passed to several conversions without re-binding must be filled in place
+    own = {}
+    with contextlib.redirect_stdout(io.StringIO()):
+        f1, _ = S.sympy_to_casadi(X + Y, symbols=own)
+        f2, _ = S.sympy_to_casadi(X * X - Y, symbols=own)
+    res.count("evaluations")
+    vars_ = ca.symvar(ca.SX(f1) + ca.SX(f2))
+    if sorted(own) != ["x", "y"] or len(vars_) != 2 or not all(any(ca.is_equal(v, own[k]) for k in own) for v in vars_):
+        res.fail(site="sympy_to_casadi", clause="symbol_table_consistent", cls="caller_owned_table", detail=dict(table=list(own), variables=[v.name() for v in vars_]), sub="special", case=case)
+    # nested common sub-expressions through the cse path
+    u_ = (X + Y) ** 2 + 1
+    for src in (u_ ** 2 + sympy.sin(u_) + (X + Y), sympy.cos((X * Y + 2) ** 2) * (X * Y + 2) + ((X * Y + 2) ** 2) ** 2):
+        res.count("evaluations")
+        res.nontrivial.add(hash(sympy.srepr(src)))
+        try:
+            with contextlib.redirect_stdout(io.StringIO()):
+                e_ca, symbols = S.sympy_to_casadi(src, cse=True)
+        except Exception:
+            res.count("refused")
+            continue
+        leftover = [n for n in symbols if n not in ("x", "y")]
+        free = [v.name() for v in ca.symvar(ca.SX(e_ca))]
+        if leftover or any(n not in ("x", "y") for n in free):
+            res.fail(site="sympy_to_casadi", clause="symbol_table_consistent", cls="cse_nested", detail=dict(expr=str(src), symbols=list(symbols), free=free), sub="special", case=case)
+            continue
+        f = ca.Function("f", [symbols["x"], symbols["y"]], [ca.SX(e_ca)])
+        for xv, yv in ((0.5, 2.0), (-1.25, 3.75)):
+            want = mp_value(src, xv, yv)
+            got = float(np.array(f(xv, yv)).reshape(-1)[0])
+            if want is not None and not abs(got - want) <= 1e-9 * max(1, abs(want)):
+                res.fail(site="sympy_to_casadi", clause="value_preserved", cls="cse_nested", detail=dict(expr=str(src), x=xv, y=yv, converted=got, source=want), sub="special", case=case)
+                break
     # reverse direction table
     a, b = ca.SX.sym("a"), ca.SX.sym("b")
     syms = {}
